@@ -403,3 +403,54 @@ def run_property(prop: str, tier: str, replay: str | None = None) -> int:
         for v in vs[:5]:
             print('  ', v['kind'], '-', v['what'][:300])
     return rc
+
+
+def coq_eval_groups(imports: list[str], groups: list[tuple[str, list[str]]], chunk: int = 300, workers: int = 14):
+    """Like coq_eval, for expressions that share per-group definitions (e.g. one context per targeton).
+    groups = [(defs, [exprs])]; -> (list of (group index, expr index) evaluating to false, error text)."""
+    files, cur_defs, cur_exprs, cur_map = [], '', [], []
+    for gi, (defs, exprs) in enumerate(groups):
+        if cur_exprs and len(cur_exprs) + len(exprs) > chunk:
+            files.append((cur_defs, cur_exprs, cur_map))
+            cur_defs, cur_exprs, cur_map = '', [], []
+        cur_defs += defs
+        for ei, e in enumerate(exprs):
+            cur_exprs.append(e)
+            cur_map.append((gi, ei))
+    if cur_exprs:
+        files.append((cur_defs, cur_exprs, cur_map))
+    if not files:
+        return [], ''
+    header = 'From VV Require Import ' + ' '.join(imports) + '.'
+    tmp = tempfile.mkdtemp(prefix='vvc_', dir=common.scratch_root())
+    try:
+        jobs = [(i, header, f[0], f[1], tmp) for i, f in enumerate(files)]
+        bad, errs = [], []
+        with cf.ThreadPoolExecutor(max_workers=workers) as ex:
+            for idx, fails, err in ex.map(_run_case_file, jobs):
+                if fails is None:
+                    errs.append(f'chunk {idx}: {err}')
+                else:
+                    bad += [files[idx][2][k] for k in fails]
+        return bad, '\n'.join(errs)
+    finally:
+        shutil.rmtree(tmp, ignore_errors=True)
+
+
+def coq_eval_codes(imports: list[str], defs: str, exprs: list[str]) -> list[int] | None:
+    """Evaluate N-valued Coq expressions (a handful: used to attribute a disagreement to output fields)."""
+    if not exprs:
+        return []
+    tmp = tempfile.mkdtemp(prefix='vvc_', dir=common.scratch_root())
+    try:
+        fp = os.path.join(tmp, 'Codes.v')
+        with open(fp, 'w') as fh:
+            fh.write('From VV Require Import ' + ' '.join(imports) + '.\nOpen Scope Z_scope.\nOpen Scope string_scope.\nSet Printing Width 1000000.\n')
+            fh.write(defs + '\nDefinition codes : list N := [\n' + ';\n'.join(exprs) + '].\nEval vm_compute in codes.\n')
+        p = subprocess.run(['timeout', '600', 'coqc', '-Q', COQ, 'VV', fp], cwd=tmp, capture_output=True, text=True)
+        if p.returncode != 0:
+            return None
+        m = re.search(r'=\s*(\[.*?\])\s*(?:%N)?\s*:\s*list N', p.stdout, flags=re.S)
+        return [int(x) for x in re.findall(r'\d+', m.group(1))] if m else None
+    finally:
+        shutil.rmtree(tmp, ignore_errors=True)
